@@ -318,7 +318,14 @@ def frames_loop_form(fx, sy, fv, slf, tr, rf):
             # the iterator `next` was called on is remap_frame(f) itself
             it_pl = nexts[0][2][0]
             itv = None
-            for n_ in F.walk(L["node"]["body"]):
+            # (the per-frame body may live in a private helper the loop calls: `self.push_remapped_frames(frame, &mut frames)`)
+            scan_ = [L["node"]["body"]]
+            for c_ in F.walk(L["node"]["body"]):
+                if c_.get("k") == "Call" and "fn" in c_:
+                    t_ = fx.by_dp.get(c_["fn"].get("dp"))
+                    if t_ in fx.bodies and fx.bodies[t_]["krate"] == "proguard" and t_ != rf:
+                        scan_.append(fx.bodies[t_]["body"])
+            for n_ in (y_ for sb_ in scan_ for y_ in F.walk(sb_)):
                 if n_.get("k") == "Block":
                     for s_ in n_["stmts"]:
                         if s_["k"] == "Let" and s_["pat"].get("k") == "Bind" and s_["pat"].get("name") == it_pl[1] and s_.get("init") is not None:
